@@ -5,6 +5,7 @@ package dbx
 
 import (
 	"bytes"
+	"encoding/hex"
 	"encoding/json"
 	"fmt"
 	"sort"
@@ -65,6 +66,25 @@ type Op struct {
 	Infos   []Info     `json:"infos,omitempty"`
 	// reqs
 	Reqs []Req `json:"reqs,omitempty"`
+	// regions (scheddiff): the protobuf-encoded pb.Regions written under regions-key
+	Hex    string   `json:"hex,omitempty"`
+	Regs   []string `json:"regs,omitempty"`
+	Counts []uint64 `json:"counts,omitempty"`
+	// sched (scheddiff): one scheduling call on the current context
+	Mode    string        `json:"mode,omitempty"`
+	Draws   []uint64      `json:"draws,omitempty"`
+	ShardsO []uint64      `json:"shards,omitempty"`
+	HostsO  []string      `json:"hosts,omitempty"`
+	Repairs []RepairOrder `json:"repairs,omitempty"`
+}
+
+// RepairOrder is the classification of one shard in the scheduler's own
+// iteration order (Go map order is an explicit input of the model).
+type RepairOrder struct {
+	S uint64   `json:"s"`
+	F []uint64 `json:"f"`
+	O []uint64 `json:"o"`
+	W []uint64 `json:"w"`
 }
 
 func repID(p []interface{}) uint64 {
@@ -126,6 +146,12 @@ func (op *Op) ToUpdate() *pb.Update {
 			nhi.ShardInfo = append(nhi.ShardInfo, si)
 		}
 		return &pb.Update{Type: pb.Update_NODEHOST_INFO, NodehostInfo: nhi}
+	case "regions":
+		raw, err := hex.DecodeString(op.Hex)
+		if err != nil {
+			panic(err)
+		}
+		return &pb.Update{Type: pb.Update_KV, KvUpdate: &pb.KV{Key: []byte("regions-key"), Value: raw, Finalized: true}}
 	case "reqs":
 		col := &pb.NodeHostRequestCollection{}
 		for i := range op.Reqs {
@@ -284,7 +310,11 @@ func (d *Dump) Canon() string {
 		if err := proto.Unmarshal(d.KVMap[k], &rec); err != nil {
 			panic(err)
 		}
-		fmt.Fprintf(&b, "%s:%s:%d:%d:%d:%v,", string(rec.Key), string(rec.Value), rec.InstanceId, rec.Tick, rec.OldInstanceId, rec.Finalized)
+		val := string(rec.Value)
+		if string(rec.Key) == "regions-key" {
+			val = hex.EncodeToString(rec.Value) // protobuf bytes
+		}
+		fmt.Fprintf(&b, "%s:%s:%d:%d:%d:%v,", string(rec.Key), val, rec.InstanceId, rec.Tick, rec.OldInstanceId, rec.Finalized)
 	}
 	b.WriteString("];img=[")
 	for _, k := range sortedU(d.ShardImage.Shards) {
